@@ -155,13 +155,14 @@ structure ReqCore extends ReqLive, ReqKept
 deriving Repr, DecidableEq
 
 /-- request_st: all modelled fields, grouped by what the reset functions do with them.
-    Functions that only look at / change `ReqCore` fields are written over `ReqCore` and applied
-    to the request with `ReqSt.onCore`. -/
+    The type of a function says which group of fields it can look at or change: functions over
+    `ReqLive` (resp. `ReqCore`) are applied to a request with `onLive` (resp. `onCore`). -/
 structure ReqSt extends ReqCore, ReqStale
 deriving Repr, DecidableEq
 
-/-- apply a function that only concerns the core fields -/
+def ReqCore.onLive (s : ReqCore) (f : ReqLive → ReqLive) : ReqCore := { s with toReqLive := f s.toReqLive }
 def ReqSt.onCore (s : ReqSt) (f : ReqCore → ReqCore) : ReqSt := { s with toReqCore := f s.toReqCore }
+def ReqSt.onLive (s : ReqSt) (f : ReqLive → ReqLive) : ReqSt := s.onCore (·.onLive f)
 
 /-- static facts of the server a request object is created for -/
 structure SrvEnv where
@@ -205,26 +206,26 @@ def hupdate (a : HList) (id : HId) (k : Bytes) (f : Bytes → Bytes) : HList :=
 def tokenAppend (old v : Bytes) : Bytes := if old.isEmpty then v else old ++ [44, sp] ++ v
 
 /-- http_header_response_set() -/
-def respSet (s : ReqCore) (id : HId) (k v : Bytes) : ReqCore :=
+def respSet (s : ReqLive) (id : HId) (k v : Bytes) : ReqLive :=
   { s with respHtags := if v.isEmpty then (if id > 0 then bclr s.respHtags id else s.respHtags)
                         else bset s.respHtags id,
            respHeaders := hupdate s.respHeaders id k (fun _ => v) }
 
 /-- http_header_response_unset() -/
-def respUnset (s : ReqCore) (id : HId) (k : Bytes) : ReqCore :=
+def respUnset (s : ReqLive) (id : HId) (k : Bytes) : ReqLive :=
   if btst s.respHtags id then
     { s with respHtags := if id > 0 then bclr s.respHtags id else s.respHtags,
              respHeaders := hupdate s.respHeaders id k (fun _ => []) }
   else s
 
 /-- http_header_response_append() -/
-def respAppend (s : ReqCore) (id : HId) (k v : Bytes) : ReqCore :=
+def respAppend (s : ReqLive) (id : HId) (k v : Bytes) : ReqLive :=
   if v.isEmpty then s else
   { s with respHtags := bset s.respHtags id,
            respHeaders := hupdate s.respHeaders id k (fun old => tokenAppend old v) }
 
 /-- http_header_response_insert(): a repeated field goes on a new line inside the value -/
-def respInsert (s : ReqCore) (id : HId) (k v : Bytes) : ReqCore :=
+def respInsert (s : ReqLive) (id : HId) (k v : Bytes) : ReqLive :=
   if v.isEmpty then s else
   let h2 := s.version ≥ 2
   let rep := (hfind s.respHeaders id k).any (fun old => !old.isEmpty)
@@ -235,7 +236,7 @@ def respInsert (s : ReqCore) (id : HId) (k v : Bytes) : ReqCore :=
              else old ++ [cr, lf] ++ (if h2 then k.map toLower else k) ++ [colon, sp] ++ v) }
 
 /-- http_header_response_get() -/
-def respGet (s : ReqCore) (id : HId) (k : Bytes) : Option Bytes :=
+def respGet (s : ReqLive) (id : HId) (k : Bytes) : Option Bytes :=
   if btst s.respHtags id then
     match hfind s.respHeaders id k with
     | some v => if v.isEmpty then none else some v
@@ -243,13 +244,13 @@ def respGet (s : ReqCore) (id : HId) (k : Bytes) : Option Bytes :=
   else none
 
 /-- http_header_request_set() -/
-def rqstSet (s : ReqCore) (id : HId) (k v : Bytes) : ReqCore :=
+def rqstSet (s : ReqLive) (id : HId) (k v : Bytes) : ReqLive :=
   { s with rqstHtags := if v.isEmpty then (if id > 0 then bclr s.rqstHtags id else s.rqstHtags)
                         else bset s.rqstHtags id,
            rqstHeaders := hupdate s.rqstHeaders id k (fun _ => v) }
 
 /-- http_header_request_get() -/
-def rqstGet (s : ReqCore) (id : HId) (k : Bytes) : Option Bytes :=
+def rqstGet (s : ReqLive) (id : HId) (k : Bytes) : Option Bytes :=
   if btst s.rqstHtags id then
     match hfind s.rqstHeaders id k with
     | some v => if v.isEmpty then none else some v
@@ -257,7 +258,7 @@ def rqstGet (s : ReqCore) (id : HId) (k : Bytes) : Option Bytes :=
   else none
 
 /-- http_header_env_set() (env entries carry no id) -/
-def envSet (s : ReqCore) (k v : Bytes) : ReqCore :=
+def envSet (s : ReqLive) (k v : Bytes) : ReqLive :=
   { s with env := hupdate s.env 0 k (fun _ => v) }
 
 /-! ### the recycling functions -/
@@ -269,7 +270,7 @@ structure HdrIds where
 deriving Repr, DecidableEq
 
 /-- http_response_body_clear() -/
-def bodyClear (h : HdrIds) (s : ReqCore) (preserveLength : Bool) : ReqCore :=
+def bodyClear (h : HdrIds) (s : ReqLive) (preserveLength : Bool) : ReqLive :=
   let s := { s with respBodyFinished := false, respBodyStarted := false, respSendChunked := false,
                     respBodyScratchpad := -1 }
   let s := if btst s.respHtags h.transferEncoding then
@@ -293,15 +294,15 @@ def responseReset (h : HdrIds) (s : ReqSt) : ReqSt :=
            else s
   let s := { s with respHtags := [], respHeaderLen := 0, respHeaderRepeated := false,
                     respHeaders := hreset s.respHeaders }
-  s.onCore (bodyClear h · false)
+  s.onLive (bodyClear h · false)
 
 /-- plugins_call_handle_request_reset(): every module that keeps per-request state in
     r->plugin_ctx[id] clears its slot in its handle_request_reset hook -/
-def pluginsReset (s : ReqCore) : ReqCore := { s with pluginCtx := s.pluginCtx.map fun _ => none }
+def pluginsReset (s : ReqLive) : ReqLive := { s with pluginCtx := s.pluginCtx.map fun _ => none }
 
 /-- request_reset() -/
 def requestReset (h : HdrIds) (e : SrvEnv) (s : ReqSt) : ReqSt :=
-  let s := s.onCore pluginsReset
+  let s := s.onLive pluginsReset
   let s := responseReset h s
   { s with
     loopsPerRequest := 0, keepAlive := 0,
